@@ -168,7 +168,22 @@ func TestC14(t *testing.T) {
 func genPlanC13(rt *rapid.T) *RPlan {
 	p := &RPlan{Retain: 8}
 	p.PauseUs = rapid.SampledFrom([]int{0, 1000, 2000, 5000, 20000, 250, 500, 999, 1001, 1500}).Draw(rt, "pause")
-	p.Scenario = rapid.SampledFrom([]string{"pacing", "pacing", "idle", "idle", "saturated", "saturated", "storm", "storm", "close-in-inhibit"}).Draw(rt, "scenario")
+	p.Scenario = rapid.SampledFrom([]string{"pacing", "pacing", "idle", "idle", "saturated", "saturated", "storm", "storm", "close-in-inhibit", "barge"}).Draw(rt, "scenario")
+	if p.Scenario == "barge" {
+		p.PauseUs = 0
+		k := rapid.SampledFrom([]int{1, 1, 2, 4, 8}).Draw(rt, "barge-senders")
+		p.Senders = make([][]RSend, k)
+		tag := 1
+		for l := 0; l < k; l++ {
+			for i := 0; i < 6000/k+500; i++ {
+				p.Senders[l] = append(p.Senders[l], RSend{Tag: tag})
+				tag++
+			}
+		}
+		p.Net = []RNet{{AfterUs: rapid.SampledFrom([]int{300, 800, 1500}).Draw(rt, "barge-at"), Kind: "busy", WaitMs: 40, Ctl: 1}}
+		p.NoProbe = true
+		return p
+	}
 	lanes := rapid.IntRange(1, 8).Draw(rt, "senders")
 	budgetUs := 250_000 // keep a case within a few hundred ms of real time
 	per := p.PauseUs + 100
@@ -265,11 +280,62 @@ func genPlanC13(rt *rapid.T) *RPlan {
 	return p
 }
 
+// c13Barge: "after a routing-busy indication has been taken in, at most one further transmission per goroutine that
+// was already inside Send may still go out" - with no post-send pause and senders that call Send back to back. Every
+// sender is inside Send (or between two Sends) when the indication is taken in, so the allowance is one transmission
+// per sender; the serve loop then has to get the send lock, which the senders keep handing to each other. Whether it
+// gets it at once depends on the scheduler in a single run (the serve goroutine can be descheduled between taking the
+// frame and asking for the lock), so the run is repeated up to 10 times and the SMALLEST number of transmissions
+// between intake and silence is judged: a client that hands the lock to the waiting serve loop shows a round within
+// the allowance; one whose senders barge past it for as long as the mutex lets them (about a millisecond, hundreds
+// of transmissions) never does. Rounds in which the burst was over before the indication arrived say nothing.
+func c13Barge(p *RPlan, rec *common.Rec) *common.Fail {
+	senders := len(p.Senders)
+	allow := senders + 2
+	best, rounds := -1, 0
+	for r := 0; r < 10; r++ {
+		rec.InFlight(p)
+		n, ok, hung := bargeRound(senders, len(p.Senders[0]), us(p.Net[0].AfterUs), p.Net[0].WaitMs)
+		rec.Landed()
+		if hung {
+			return common.Failf("send-hung", "busy during a pause-less burst of %d senders: a Send did not return within 5 s", senders)
+		}
+		if !ok {
+			continue // the burst ended before (or right when) the indication was taken in
+		}
+		rounds++
+		if best < 0 || n < best {
+			best = n
+		}
+		if best <= allow {
+			break
+		}
+	}
+	rec.Class("scenario-barge")
+	rec.Class(fmt.Sprintf("senders=%d", senders))
+	if rounds == 0 {
+		rec.Inconclusive("busy during a pause-less burst: the burst never outlasted the indication")
+		return nil
+	}
+	rec.Class(fmt.Sprintf("barge: fewest transmissions between intake and silence %d (allowance %d)", best, allow))
+	rec.NonTrivial(common.HashJSON(p))
+	// the verdict leaves room for a scheduler that is unkind in every round (a loaded machine): twice the allowance and
+	// then some; a client whose senders barge shows dozens to hundreds
+	if best > 2*senders+8 && rounds >= 5 {
+		return common.Failf("busy-overrun", "no post-send pause, %d senders calling Send back to back, busy indication (%d ms) taken in mid-burst: in every one of %d rounds far more than the %d transmissions the rule allows (one per sender that was inside Send, plus two) started between the intake and the silence (fewest: %d); the senders keep taking the send lock past the waiting serve loop",
+			senders, p.Net[0].WaitMs, rounds, allow, best)
+	}
+	return nil
+}
+
 func TestC13(t *testing.T) {
 	rec := common.NewRec("C13", "real")
 	completed := false
 	defer func() { rec.Finish(completed) }()
 	run := func(p *RPlan) *common.Fail {
+		if p.Scenario == "barge" {
+			return c13Barge(p, rec)
+		}
 		rec.InFlight(p)
 		res := runRouter(p)
 		rec.Landed()
